@@ -119,8 +119,15 @@ def run(plan):
         else:
             data = bad_reply(h["cls"], h, plan.get("seed", 0) + hi)
         replies = []
-        for (t, src_port) in h["copies"]:
-            replies.append((t, src_port, data))
+        for cp in h["copies"]:
+            t, src_port = cp[0], cp[1]
+            d_copy = data
+            if len(cp) > 2 and h["cls"] == "good":
+                # the same unit answers in the other protocol format as well (it listens on both probe ports)
+                d_copy = good_reply(cp[2], h["device_id"], h["inner_ip"], h["port"], h["sn"], h["name"])
+                if cp[2] != h["version"]:
+                    w.fire("same_address_replies_in_both_formats")
+            replies.append((t, src_port, d_copy))
             if t <= 5.0:
                 delivered += 1
                 if h["cls"] == "good":
@@ -131,8 +138,11 @@ def run(plan):
             w.fire("udp_dup", len(h["copies"]) - 1)
         if h["cls"] != "good":
             w.fire("udp_bad_reply[" + h["cls"] + "]")
-        w.net.add_udp_host(h["ip"], RefHost(h["ip"], replies))
-        if plan.get("auto") and h["cls"] == "good" and h.get("tcp") in ("ok", "slow", "silent", "hang"):
+        rh = RefHost(h["ip"], replies)
+        if plan.get("single") is not None and hi != plan["single"]:
+            rh.chatty = True           # talks to the prober although only the target was probed
+        w.net.add_udp_host(h["ip"], rh)
+        if plan.get("auto") and h["cls"] == "good" and h.get("tcp") in ("ok", "slow", "silent", "hang", "unreachable"):
             from refmodel.device import RefDevice
             d = RefDevice(version=2, device_id=h["device_id"])
             if h["tcp"] == "slow":
@@ -141,6 +151,8 @@ def run(plan):
                 d.default_directive = {"drop": True}
             elif h["tcp"] == "hang":
                 d.conn_script = [["hang", 0]] * 4
+            elif h["tcp"] == "unreachable":
+                d.conn_script = [["oserror:113", 0.003]] * 4
             w.net.listen(h["ip"], h["port"], d)
     auto = bool(plan.get("auto"))
     if auto:
@@ -148,6 +160,22 @@ def run(plan):
 
     async def main(w):
         D = w.ns.discover.Discover
+        if plan.get("single") is not None:
+            # unicast discovery of one host while other hosts talk to the same socket
+            target = plan["hosts"][plan["single"]]
+            o = await capture(w, D.discover_single(target["ip"], auto_connect=False))
+            if o.kind != "ok":
+                res.fail(f"discover_single raised {o.exc_type}", f"classes {[h['cls'] for h in plan['hosts']]}: {o.exc!r}")
+                return
+            got_t = any(addr[0] == target["ip"] for (_t, _d, addr) in w.net.endpoints[0].received)
+            want = target["cls"] == "good" and got_t
+            w.fire("unicast_discovery_with_foreign_datagrams")
+            if want and o.value is None:
+                res.fail("a good host was not reported", f"discover_single({target['ip']}) returned None; classes "
+                                                         f"{[h['cls'] for h in plan['hosts']]}")
+            elif o.value is not None and (not want or o.value.ip != target["ip"]):
+                res.fail("a host without a good reply inside the window was reported", f"discover_single -> {o.value.ip}")
+            return
         o = await capture(w, D.discover(auto_connect=auto))
         if o.kind != "ok":
             res.fail(f"discover raised {o.exc_type}", f"classes {[h['cls'] for h in plan['hosts']]}: {o.exc!r}")
@@ -188,7 +216,8 @@ def run(plan):
         for h in plan["hosts"]:
             if h["ip"] in by_ip:
                 d = by_ip[h["ip"]]
-                if (d.id, d.port, d.sn, d.name, d.version) != (h["device_id"], h["port"], h["sn"], h["name"], h["version"]):
+                vers = {h["version"]} | {cp[2] for cp in h["copies"] if len(cp) > 2}
+                if (d.id, d.port, d.sn, d.name) != (h["device_id"], h["port"], h["sn"], h["name"]) or d.version not in vers:
                     res.fail("reported identity differs from the advertised one", h["ip"])
                     return
 
@@ -199,8 +228,9 @@ def run(plan):
     res.take(w)
     if w.net.protocol_exceptions:
         res.probes["exception_inside_datagram_received"] = len(w.net.protocol_exceptions)
-    order = sorted((t, hi) for hi, h in enumerate(plan["hosts"]) for (t, _p) in h["copies"])
-    res.key = (tuple(h["cls"] for h in plan["hosts"]), tuple(hi for _t, hi in order), tuple(t >= 5.0 for t, _ in order))
+    order = sorted((cp[0], hi) for hi, h in enumerate(plan["hosts"]) for cp in h["copies"])
+    res.key = (tuple(h["cls"] for h in plan["hosts"]), tuple(hi for _t, hi in order), tuple(t >= 5.0 for t, _ in order),
+               plan.get("single"), tuple(tuple(cp[2:]) for h in plan["hosts"] for cp in h["copies"]))
     res.nontrivial = delivered >= 2
     return res
 
@@ -258,15 +288,30 @@ def space(tier):
                 # a copy landing exactly when the listening window ends, or one tick to either side
                 h["copies"].append([5.0 + rng.choice([-1, 0, 0, 1]) / (1 << 20), 6445])
         p = {"hosts": hosts, "twice": rng.random() < 0.3}
+        for h in hosts:
+            if h["cls"] == "good" and rng.random() < 0.2:
+                for cp in h["copies"]:
+                    cp.append(rng.choice([2, 3]))
+        if rng.random() < 0.15:
+            # unicast discovery of one host; the others talk to the prober's socket with replies that are not
+            # usable (which of several *good* repliers discover_single() returns is unspecified)
+            p["single"] = rng.randrange(len(hosts))
+            p["twice"] = False
+            for i, h in enumerate(hosts):
+                if i != p["single"] and h["cls"] == "good":
+                    h["cls"] = rng.choice(["short_body", "nontext_body", "marker_only_v2", "marker_only_v3", "xml_no_attrs",
+                                           "xml_closed_port", "no_separators", "bad_cipher_len", "v3_header_only"])
+            return p
         if rng.random() < 0.2:
             # auto-connect: good V2 air conditioners are contacted after the window; some answer slowly or never, so
             # parse tasks are still pending while late datagrams (also from new addresses) keep arriving
             p["auto"] = True
             for h in hosts:
+                h["copies"] = [cp[:2] for cp in h["copies"]]      # (a V3 identity would send auto-connect to the cloud)
                 if h["cls"] == "good":
                     h["version"] = 2
                     h["name"] = "net_" + rng.choice(["ac", "AC"]) + "_" + h["name"].split("_", 2)[2]
-                    h["tcp"] = rng.choice(["ok", "slow", "silent", "silent", "refused", "hang"])
+                    h["tcp"] = rng.choice(["ok", "slow", "silent", "silent", "refused", "hang", "unreachable"])
                     if rng.random() < 0.3:
                         h["copies"] = [[rng.choice([5.5, 6.0, 7.5, 9.0, 13.5]), 6445]]     # only late copies
         return p
